@@ -225,6 +225,10 @@ def run(ctx, rep):
         rep.check("C20.5" + sfx, "C20.5/hash-order", not obs5 and len(seen5) >= 40, loc="src/",
                   found=[("%s: %s" % (q_.split("::")[-1], w_)) for q_, n_, w_ in obs5[:4]] or "%d functions reachable from constructors, writer and queries; hash containers used for membership and keyed lookup only" % len(seen5),
                   expected="no iteration over a hash container where the order can reach a result")
+        # ---- C20.6 an answer must not depend on the stack the calling thread happens to have: no recursion on the query paths whose
+        # depth follows the data (a worker thread with a small stack aborts where the main thread answers)
+        import recursion as RC6
+        RC6.check_recursion(fx, rep, "C20.6" + sfx, seen4)
         # ---- C20.3 inventory -------------------------------------------------------
         items = fx.items["proguard"]
         for s in items["statics"]:
